@@ -4,7 +4,7 @@ import json
 from harness.sim import enc, encj
 
 HOOKS = ["before_start", "after_start", "before_spawn", "after_spawn", "before_stop", "after_stop",
-         "before_signal", "after_signal"]
+         "before_signal", "after_signal", "before_reap", "after_reap"]
 
 
 def b(x):
